@@ -5,7 +5,7 @@
 # (The C17 compile probes still build against /repo; use try_mutant.sh for changes they should see.)
 P=$1; shift
 set -u
-M=/tmp/mh
+M=${MH:-/tmp/mh}
 mkdir -p $M
 if [ ! -d $M/repo ]; then git -C /repo worktree add -q --detach $M/repo HEAD; fi
 git -C $M/repo checkout -q --detach $(git -C /repo rev-parse HEAD)
